@@ -13,6 +13,12 @@ R12c flags are consulted: every waiting loop in PInterpreter (a `while` whose bo
      directly or through _is_awaiting_threshold / _try_activate_node); PauseEngineCommand.cancel and
      HoldEngineCommand.cancel run the inverse command and complete.
 Decides the reject-or-apply structure; tick-exact timing of the effect is not decided.
+R12d a cancelled command is finalized at once: in CommandManager.cancel_instruction every path on which the request is
+     accepted for a command instance (`command is not None`) reaches a finalisation before the function returns -
+     _cancel_command(request) with its finalize flag omitted or literally True, or finalize() on the command (a
+     `not is_finalized()` test may skip it when nothing is left to finalize). A finalisation deferred to a later tick
+     leaves the cancelled instance registered; a new request of the same name finds it, and the cancelled request then
+     recreates and runs the command again - the cancelled instruction performs its effect after the cancel.
 """
 from __future__ import annotations
 
@@ -185,3 +191,46 @@ def run(ctx) -> None:
             ctx.ok("R12c", inst)
         else:
             ctx.fail("R12c", m, m.node, inst, "cancel does not end the timed pause/hold at once")
+
+    # ---- R12d
+    ctx.rule("R12d", "an accepted cancel of a command instance finalizes it before returning")
+    ci = prog.func("openpectus.engine.command_manager:CommandManager.cancel_instruction")
+    ctx.analysed(ci)
+    gci = cfg_of(ci)
+    from ..util import local_single_defs as _lsd
+    cdefs = _lsd(ci)
+    cmd_locals = [k for k, v in cdefs.items() if isinstance(v, ast.Call) and call_attr(v) == "get_command"]
+    tests = [n for n in gci.nodes if n.kind == "test" and any(norm(n.ast) == f"{c} is not None" for c in cmd_locals)]
+    if not cmd_locals or not tests:
+        raise AnchorError("cancel_instruction: `command = tracking.get_command(..)` / `if command is not None` not found")
+
+    def finalizes(n) -> bool:
+        for c in n.calls():
+            nm = call_attr(c)
+            if nm == "_cancel_command":
+                fin = next((k.value for k in c.keywords if k.arg == "finalize"), c.args[1] if len(c.args) > 1 else None)
+                if fin is None or (isinstance(fin, ast.Constant) and fin.value is True):
+                    return True
+            if nm in ("finalize", "_finalize_command"):
+                return True
+        return False
+
+    def nothing_left(sid, d, lab) -> bool:
+        nn = gci.nodes[sid]
+        if nn.kind != "test":
+            return False
+        t = norm(nn.ast)
+        if t.endswith(".is_finalized()"):
+            return lab == ("F" if t.startswith("not ") else "T")
+        return False
+    for t in tests:
+        inst = "cancel_instruction: command instance is finalized on every accepting path"
+        p = gci.search([(t.id, "T")], lambda n: n.id == gci.exit.id, blocked=finalizes, blocked_edge=nothing_left, follow_exc=False)
+        if p is None:
+            ctx.ok("R12d", inst)
+        else:
+            weak = [norm(c) for n in p for c in n.calls() if call_attr(c) == "_cancel_command"]
+            ctx.fail("R12d", ci, t.ast, inst, "a path accepts the cancel of a command instance and returns without finalizing it"
+                     + (f" (`{weak[0][:90]}` does not pass finalize=True unconditionally)" if weak else "") +
+                     ": the cancelled instance stays registered until a later tick; a new request of the same name picks it up and "
+                     "the cancelled request recreates and runs the command again", p)
